@@ -22,5 +22,8 @@ Qed.
 Theorem src_rdist_eq (x y : list R) : length x = length y -> src_rdist RNum x y = rdist RNum x y.
 Proof.
   intros L. unfold src_rdist. cbv zeta. loop2 L. cbv beta.
-  rewrite (rdist_fold x y). cbn. rn. lra.
+  (* compare the loop body up to the ring laws (tolerates a re-association of the source's arithmetic) *)
+  transitivity (fold_left (fun (s : R) (ab : R * R) => s + (fst ab - snd ab) * (fst ab - snd ab)) (combine x y) 0).
+  { apply fold_left_ext. intros s [a b]. cbn [fst snd add sub mul RNum]. rn. ring. }
+  rewrite (rdist_fold x y). lra.
 Qed.
